@@ -138,7 +138,7 @@ def main_c19(pid, tier, seed, replay_path=None):
         return 1
     n, nq = (20, 14) if tier == "quick" else (300, 22)
     out = os.path.join(build.WORK, "scratch", "c19-%d-%s" % (seed, tier))
-    recs, extras = l3batch.l3_batch(seed + 50, n, nq, dr, out, binary=binary, opts=dict(summary=True), profiles=("opt", "loops", "grid", "tiny", "asymfp"))
+    recs, extras = l3batch.l3_batch(seed + 50, n, nq, dr, out, binary=binary, opts=dict(summary=True), profiles=("opt", "loops", "grid", "tiny", "asymfp", "mixedwait", "wide"))
     fails, nontriv, evals = [], set(), 0
     for r in recs:
         ds, ops, raws, info = extras[r["case"]]
